@@ -276,8 +276,14 @@ def normalise(facts, Fn):
         if not changed:
             break
     # a helper all of whose call sites were inlined is dead code of the normalised program
+    import json as _json
     for hid in list(report):
         still = any(_callee_id(t) == hid for f in facts.fns.values() for _, t in f.calls())
+        if not still:
+            # .. unless its address is taken somewhere (`let scan: fn(..) = if c { helper } else { other }`): it is then
+            # called through the pointer, with whatever guards that site has, and stays in the program as it is
+            needle = _json.dumps({"fn": hid})[1:-1]
+            still = any(needle in _json.dumps(f.j["blocks"]) for i2, f in facts.fns.items() if i2 != hid and f.crate not in ("ext", "promoted"))
         if not still and hid in facts.fns:
             del facts.fns[hid]
             for k in [k for k, n in facts.inst.items() if n["def"] == hid]:
